@@ -569,6 +569,22 @@ def c14_programs(seed, tier):
                             p.append(v_int(rc["min"] + (k * 7 + ci * 3) % (span + 1)))
                     pts.append(p)
                 out.append(prog(f"b_{gname}_{tname}_{sname}", [new("g"), pc(proto, pts=pts), FIN], reals=True))
+    # constant records (minimum = maximum, zero bits per point) take part in the bounds like any other
+    for tname, mk in coord_types[:2]:
+        for cname in C + Sn:
+            proto = [rec(n, "sint", 3, 3, 0.5, 1.0) if n == cname else mk(n) for n in C + Sn] + [rec("rowIndex", "int", 7, 7), rec("columnIndex", "int", 0, 9), rec("returnIndex", "int", 0, 0), rec("returnCount", "int", 1, 1)]
+            pts = []
+            for k in range(4):
+                p = []
+                for ci, rc in enumerate(proto):
+                    if rc["min"] is not None and rc["min"] == rc.get("max") and rc["t"] in ("int", "sint"):
+                        p.append(v_sint(rc["min"]) if rc["t"] == "sint" else v_int(rc["min"]))
+                    elif rc["t"] == "int":
+                        p.append(v_int(k * 2))
+                    else:
+                        p.append(value_for(rc, float(k - 1) * (1 + ci)))
+                pts.append(p)
+            out.append(prog(f"b_constant_{cname}_{tname}", [new("g"), pc(proto, pts=pts), FIN], reals=True))
     # rejected points leave no trace in the bounds: the offending value sits in a LATER record than the coordinates / indices
     for tname, mk in coord_types[:2] + coord_types[3:]:
         proto = [mk(n) for n in C + Sn] + idx[:2] + [rec("intensity", "int", 0, 9)]
